@@ -9,13 +9,11 @@ seeds="$@"; [ -z "$seeds" ] && seeds=$(ls seeded)
 rc=0
 for s in $seeds; do
   d=$V/seeded/$s
-  git -C /repo apply $d/patch.diff || { echo "SEED $s: patch does not apply"; rc=1; continue; }
   for c in $(jq -r '.checks_expected_to_fire[]' $d/meta.json); do
-    out=$(./run $c quick 2>&1); code=$?
+    out=$(lib/withseed.sh $d/patch.diff ./run $c quick 2>&1); code=$?
     n=$(echo "$out" | grep -c '^VIOLATION')
     if [ $code -eq 1 ] && [ $n -gt 0 ]; then echo "SEED $s: $c fires ($n VIOLATION lines shown)"; else echo "SEED $s: $c MISSED (exit $code)"; rc=1; fi
   done
-  git -C /repo checkout -- .
 done
 sh $V/lib/build.sh
 exit $rc
